@@ -8,7 +8,7 @@ idiom of the chart maps, `hyperbolic.poincare_to_kleinian`, `kleinian_to_poincar
 -/
 import GT.Model.Obj
 
-namespace GT
+namespace GT.Act
 open ND
 
 variable {K : Type} [Inhabited K]
@@ -52,4 +52,4 @@ def normalizeLit [Add K] [Mul K] [Zero K] [Div K] [DecidableEq K] (rabs : K → 
     let d := (sq.map rabs).expandRange sq.rank 1
     zipBcast (fun x y => if y = 0 then x else x / y) v d
 
-end GT
+end GT.Act
